@@ -25,7 +25,7 @@ from ..shims import scipy_shim as SS
 from ..shims.np_shim import SymArray
 from .common import (P, box, evalf, load_sym, model_floats, not_close, paths, rng, K, Q, Sym, lift, simp, fresh)
 from .resv import FluidStub, load_reservoir, times, rows_of, MemoSolve, policy_exact, policy_havoc_then_exact
-from .c01 import _real_run
+from .c01 import _real_run, replay_series_time  # noqa: F401
 
 
 class DensityFluid(FluidStub):
@@ -432,7 +432,7 @@ def replay_balance_reused(model, nx=3, nt=3):
     return bool(problems), {"what": "; ".join(problems[:2]) or "mass balance holds on the re-used object", "inputs": {k: v for k, v in model.items() if k != "__uf__"}}
 
 
-def job_balance_sp(job, nx, reachable, reused=False):
+def job_balance_sp(job, nx, reachable, reused=False, tseries=False):
     """Single-phase reservoir, pressure-independent diffusivity, arbitrary frac-face schedule: the stored field changes
     by exactly what crosses the face next to the fracture (discrete mass conservation of the interior and outer rows).
     reachable=False: step from an arbitrary level inside C01's bounds; True: first two steps from the initial state."""
@@ -440,7 +440,7 @@ def job_balance_sp(job, nx, reachable, reused=False):
     job.encoded(mod, "SinglePhaseReservoir.simulate", "_build_matrix", "SinglePhaseReservoir.alpha_scaled")
     job.stub("fluid*: FlowProperties contract stub with constant diffusivity", "linear solve: ideal solve A x = b")
     nt = 3
-    tag = f"balance-singlephase[nx={nx},{'from the initial state' if reachable else 'arbitrary level'}{',object re-used after its fluid was replaced' if reused else ''}]"
+    tag = f"balance-singlephase[nx={nx},{'from the initial state' if reachable else 'arbitrary level'}{',object re-used after its fluid was replaced' if reused else ''}{',time grid a pandas Series' if tseries else ''}]"
     hold = {}
 
     def pol(rec):
@@ -460,6 +460,9 @@ def job_balance_sp(job, nx, reachable, reused=False):
         SS.LinSolve.reset(pol)
         SS.reset_names()
         t, _ = times(nt)
+        if tseries:
+            from ..shims.pd_shim import SymSeries
+            t = SymSeries(list(t.d), "f8", list(range(nt)))      # the time column of a production table
         fluid = ConstAlphaFluid()
         hold["fluid"] = fluid
         if reused:
@@ -477,8 +480,13 @@ def job_balance_sp(job, nx, reachable, reused=False):
         return rows_of(r), t, fluid
 
     rp = (replay_balance_reused, {"nx": nx, "nt": nt}) if reused else (replay_balance_sp, {"nx": nx, "nt": nt})
+    if tseries:
+        rp = (replay_series_time, {"cls": "SinglePhaseReservoir", "nx": nx})
     for k, pr in enumerate(paths(job, run, [], max_paths=16)):
         if pr.exc is not None:
+            if tseries:
+                job.prove(f"{tag}/raises {type(pr.exc).__name__}[path{k}]", pr.pc, bound=f"nx={nx}", replay=rp, note=repr(pr.exc)[:100])
+                continue
             job.errors.append(f"{tag} raised {pr.exc!r}")
             continue
         rows, t, fluid = pr.value
@@ -520,6 +528,7 @@ def jobs(tier):
         out.append((f"balance-sp-{nx}", lambda j, n=nx: job_balance_sp(j, n, False)))
         out.append((f"balance-sp-reach-{nx}", lambda j, n=nx: job_balance_sp(j, n, True)))
     out.append(("balance-sp-reused-3", lambda j: job_balance_sp(j, 3, True, True)))
+    out.append(("balance-sp-series-time-3", lambda j: job_balance_sp(j, 3, True, False, True)))
     if tier != "quick":
         out += [("ceiling-5-3", lambda j: job_zero_and_ceiling(j, 5, 3)), ("ceiling-3-3", lambda j: job_zero_and_ceiling(j, 3, 3)),
                 ("trapezoid-6", lambda j: job_trapezoid(j, 6))]
